@@ -76,6 +76,19 @@ Proof. exact c08_context_pinned_refuted. Qed.
 Theorem C08_context_pinned_agrees_when_fresh : forall h, overlay_pinned cx0 h = ctx_of h.
 Proof. exact overlay_pinned_fresh. Qed.
 
+(** A handler added with a nil publisher (REPAIRED AddHandler: it gets the no-publisher stand-in): whatever
+    publisher decorators are registered, nothing is ever called on nil — when the handler stops there is no
+    Close on nil, and a chain that returns messages is nacked without any Publish call. *)
+Theorem C08_nil_publisher_never_closed : forall h s, publisher_close_panics false h s = false.
+Proof. exact nil_publisher_never_closed. Qed.
+Theorem C08_nil_publisher_outputs_nacked : forall h s d x l, h_pub h = PNil -> chain_outcome h s d = Ret (x :: l) ->
+  publish_calls (dispatch h s d) = [] /\ settles (dispatch h s d) = [false].
+Proof. exact nil_publisher_trace. Qed.
+(** PINNED (before the fix): with a publisher decorator registered h.publisher was the decorator around nil and
+    handler.run's Close on it panicked in the handler goroutine when the handler stopped: the process died. *)
+Theorem C08_nil_publisher_pinned_refuted : exists h s, publisher_close_panics true h s = true.
+Proof. exact nil_publisher_pinned_refuted. Qed.
+
 (** The code-shaped model (loops) computes the declarative trace, and every delivery of every
     program passes the acceptor that judges implementation observations. *)
 Theorem C08_dispatch_is_spec : forall h s d, dispatch h s d = spec_trace h s d.
@@ -94,6 +107,9 @@ Print Assumptions C08_context_values_pinned_refuted.
 Print Assumptions C08_context_pinned_agrees_when_fresh.
 Print Assumptions C08_dispatch_is_spec.
 Print Assumptions C08_model_accepted.
+Print Assumptions C08_nil_publisher_never_closed.
+Print Assumptions C08_nil_publisher_outputs_nacked.
+Print Assumptions C08_nil_publisher_pinned_refuted.
 Print Assumptions C08_model_accepted_all.
 Print Assumptions C08_wiring_is_declarative.
 
